@@ -17,7 +17,8 @@ def prog_job(args):
     rng = random.Random(seed)
     out = []
     hist = {}
-    for _ in range(n_progs):
+    witness = n_progs == "witness"
+    for _ in range(1 if witness else n_progs):
         inputs = [Signal(gen_expr.rand_shape(rng, 5), name=f"i{k}") for k in range(rng.randint(2, 4))]
         offs = [Signal(unsigned(rng.randint(0, 3)), name=f"o{k}") for k in range(rng.randint(1, 2))]
         inputs = inputs + offs
@@ -37,7 +38,15 @@ def prog_job(args):
                 self.tg.used = set()
                 return self.tg.target(d)
         try:
-            items = gen_prog.gen_items(rng, g_comb, g_sync, Fresh(tg_comb), Fresh(tg_sync), rng.randint(1, depth), hist)
+            if witness:
+                # recorded finding F9: one signal twice in a concatenation assigned through a part-select
+                from amaranth.hdl import Cat
+                o1 = Signal(1, name="o"); t2 = Signal(2, name="t")
+                inputs, combT, syncT = [o1], [], [t2]
+                allsigs = inputs + combT + syncT
+                items = [("assign", "sync", Cat(t2, t2).bit_select(o1, 1), 1)]
+            else:
+                items = gen_prog.gen_items(rng, g_comb, g_sync, Fresh(tg_comb), Fresh(tg_sync), rng.randint(1, depth), hist)
         except Exception as e:
             hist["generator_error:" + errkind(e)] = hist.get("generator_error:" + errkind(e), 0) + 1
             continue
@@ -119,8 +128,38 @@ def parse_proc(resp):
     return rows
 
 
-def has_alias(req):
-    return False
+def has_alias(case):
+    """F9 classifier: one signal occurs twice in a concatenation that is assigned through a slice or part-select"""
+    from .c05 import has_alias_under_select
+    import re
+    for dom in ("comb", "sync"):
+        for m in re.finditer(r"\(= (\((?:part|slice) .*?)\) \(", case.get("prog", {}).get(dom, "")):
+            pass
+    txt = " ".join(case.get("prog", {}).values())
+    # every assignment target is the first operand of "(= target rhs)"; test each target on its own
+    out = False
+    depth = 0
+    i = 0
+    while True:
+        i = txt.find("(= ", i)
+        if i < 0:
+            break
+        j = i + 3
+        d = 0
+        k = j
+        while k < len(txt):
+            if txt[k] == "(":
+                d += 1
+            elif txt[k] == ")":
+                d -= 1
+                if d == 0:
+                    break
+            k += 1
+        target = txt[j:k + 1]
+        if has_alias_under_select(target):
+            out = True
+        i = k
+    return out
 
 
 def judge(chk, case, resps):
@@ -146,7 +185,8 @@ def judge(chk, case, resps):
             if env[i] != row["spec"][i]:
                 chk.violation(f"comb signal {case['sigs'][i][0]} = {env[i]} but the active assignments give {row['spec'][i]} in state {env}",
                               dict(base, kind="comb", env=env, sig=case["sigs"][i][0], impl=env[i], spec=row["spec"][i],
-                                   model=row["model"][i], request=case["req_comb"], classes=[]))
+                                   model=row["model"][i], request=case["req_comb"],
+                                   classes=["F9"] if (has_alias(case) and env[i] == row["model"][i]) else []))
                 return
             if env[i] != row["model"][i]:
                 chk.not_shown("comb correspondence: impl = spec, model differs", dict(base, env=env, sig=i, impl=env[i], model=row["model"][i], request=case["req_comb"]))
@@ -162,7 +202,8 @@ def judge(chk, case, resps):
             if env2[i] != row["spec"][i]:
                 chk.violation(f"sync signal {case['sigs'][i][0]} becomes {env2[i]} at the edge but the active assignments give {row['spec'][i]} from state {env}",
                               dict(base, kind="sync", env=env, after=env2, sig=case["sigs"][i][0], impl=env2[i], spec=row["spec"][i],
-                                   model=row["model"][i], request=case["req_sync"], classes=[]))
+                                   model=row["model"][i], request=case["req_sync"],
+                                   classes=["F9"] if (has_alias(case) and env2[i] == row["model"][i]) else []))
                 return
             if env2[i] != row["model"][i]:
                 chk.not_shown("sync correspondence: impl = spec, model differs", dict(base, env=env, sig=i, impl=env2[i], model=row["model"][i], request=case["req_sync"]))
@@ -182,7 +223,7 @@ def run(chk):
     quick = chk.tier == "quick"
     rng = chk.rng
     plan = [(160 if quick else 3000, 12, 4, 6)]
-    args = [(rng.getrandbits(48), n, d, st) for jobs, n, d, st in plan for _ in range(jobs)]
+    args = [(1, "witness", 1, 4)] + [(rng.getrandbits(48), n, d, st) for jobs, n, d, st in plan for _ in range(jobs)]
     with ProcessPoolExecutor(max_workers=min(16, os.cpu_count() or 4)) as ex:
         for job in ex.map(prog_job, args, chunksize=2):
             for k, v in job["hist"].items():
